@@ -619,6 +619,8 @@ pub fn check(prop: &str, tier: &str, profile: &str, evidence_path: Option<String
         .set("samples", J::A(samples))
         .set("distinct_histories_including_empty", J::U(distinct.len() as u64))
         .set("empty_histories", J::U(total.get("history.empty")))
+        .set("states", J::U(total.set_len("abstract_states")))
+        .set("states_measure", J::s("distinct (subject, entry-count bucket, byte-length bucket, last operation kind, refused or not) reached after a step; buckets are logarithmic with 255/256 and 65535/65536 kept apart"))
         .set("simulated_steps", J::U(total.get("steps")))
         .set("prefixes_observed", J::U(total.get("prefixes.observed")))
         .set("prefixes_skipped", J::U(total.get("prefixes.skipped")))
